@@ -2,13 +2,16 @@
 
 
 def run(ctx):
-    ctx.lean_obligations(["SV.Props.C15"], drivers=["svdriver_c15"])
+    ctx.lean_obligations(["SV.Props.C15", "SV.Props.C15b"], drivers=["svdriver_c15"])
     quick = ctx.tier == "quick"
     # the C15 harness of fs/layer reuses the full-stack fixture of the C02 harness file
     b = ctx.go_test_binary("fs/layer", "h_layer_c15", only=["c02", "c15"])
     if b:
         ctx.correspond(b, "TestVerifC15", "svdriver_c15", "c15",
                        env={"VERIF_N": 48 if quick else 250}, timeout=900 if quick else 3000)
+        # timed waiter: staggered callers on a stalled prefetch (SV.Model.Waiter / SV.Props.C15b)
+        ctx.correspond(b, "TestVerifC15Stagger", "svdriver_c15", "c15stag",
+                       env={"VERIF_N": 1 if quick else 4}, timeout=600 if quick else 1800)
     bdb = ctx.go_test_binary("containerd-stargz-grpc/db", "h_db_c15", module_dir="cmd", only=["c02", "c15"])
     if bdb:
         ctx.correspond(bdb, "TestVerifC15DB", "svdriver_c15", "c15db",
